@@ -20,17 +20,19 @@ LEVEL = "exploration"
 TECHNIQUE = "fresh-rebuild differential over edit histories; conservation + unique-value-per-key oracle under a controlled line-level scheduler"
 RULE = ("A: alphabet of 16 operations (three evaluation routes: evaluate_equation, Element.plot, memoize/element call) (3 converter equations, 2 flow equations, 2 stock equations, initial value number/number/constant, "
         "2 constant values, reset_cache, partial evaluation) - ALL sequences of length<=3 (quick) / <=4 (thorough) + random length 5-30, "
-        "each in three observation modes (compare after every op through evaluate_equation / through the memo route, or only at the end), plus scenario double-runs with different equation lists. "
+        "each in three observation modes (compare after every op through evaluate_equation / through the memo route, or only at the end), plus scenario double-runs with different equation lists, and a stochastic model run five times with changing equation lists (SdSimulation.start and bptk.run_scenarios): repeated series identical, identities hold over the union of the reported frames. "
         "B: 4 requested-equation lists x all schedules with <=1 preemption (quick) / <=2 (thorough) at LINE granularity inside Model.memoize, "
-        "plus unscheduled stress runs. distinct_nontrivial = distinct edit histories in which an edited element has a cached dependant, "
+        "plus unscheduled stress runs. C: one thread evaluates (3 evaluation routes) while another edits (constant / converter / flow / stock equation, initial value, reset_cache, edit followed by reset): all schedules with <=1 (quick) / <=2 (thorough) preemptions at the lines of Model.memoize; once both are done the model must equal a fresh build with the final definitions. distinct_nontrivial = distinct edit histories in which an edited element has a cached dependant, "
         "plus distinct schedules in which two threads missed the same memo key.")
 ASSUMPTIONS = ["preemption only at line boundaries of Model.memoize; <=3 worker threads, 3 grid points",
                "the fresh-rebuild oracle uses the same engine on an unshared object (the property is relational)"]
-REQUIRED = {"histories": 500, "grid_comparisons": 5000, "schedules": 100, "schedules_with_double_miss": 5, "scenario_reruns": 20}
+REQUIRED = {"stochastic_reruns": 40, "edit_schedules_with_preemption": 100, "histories": 500, "grid_comparisons": 5000, "schedules": 100, "schedules_with_double_miss": 5, "scenario_reruns": 20}
 BUDGET_S = {"quick": 100, "thorough": 1500}
 
 OPS = ["v0", "v1", "v2", "f0", "f1", "s0", "s1", "i5", "i100", "ic", "c2", "c7", "reset", "peek", "peek_plot", "peek_memo"]
 GRID = [0.0, 1.0, 2.0, 3.0, 4.0]
+EDITS = ["c7", "v1", "v2", "f1", "s1", "i100", "reset", "c7+reset"]
+EVALS = ["y@3", "f@2+v@1", "plot-y"]
 EQ_LISTS = [["s", "f", "rnd"], ["rnd", "f", "s"], ["f", "copy", "rnd"], ["s", "copy"]]
 
 
@@ -50,6 +52,15 @@ def gen_cases(tier, seed):
             cases.append(dict(kind="sched", eqs=li, stride=r, K=K, depth=1 if tier == "quick" else 2))
     for li in range(len(EQ_LISTS)):
         cases.append(dict(kind="stress", eqs=li, runs=20 if tier == "quick" else 200))
+    # stochastic model run repeatedly with changing equation lists: later runs report what earlier runs consumed
+    for i in range(8 if tier == "quick" else 60):
+        cases.append(dict(kind="stochastic-rerun", seed=seed * 17 + i))
+    # C: an edit (or cache reset) made by one thread while another thread is inside an evaluation
+    KE = 4 if tier == "quick" else 8
+    for edit in EDITS:
+        for ev in EVALS:
+            for r in range(KE):
+                cases.append(dict(kind="edit-sched", edit=edit, ev=ev, stride=r, K=KE, depth=1 if tier == "quick" else 2))
     return cases
 
 
@@ -280,9 +291,157 @@ def run_sched_case(case, counters):
     return "held", None, nts
 
 
+def run_stochastic_rerun(seed, counters):
+    """The stochastic model is run several times (SdSimulation.start and bptk.run_scenarios) with different equation lists:
+    a repeated run returns identical numbers, and the union of everything reported satisfies the model's identities."""
+    from BPTK_Py import bptk
+    from BPTK_Py.sdsimulation import SdSimulation
+    rng = random.Random(seed)
+    lists = [list(l) for l in EQ_LISTS] + [["rnd"], ["f"], ["s"], ["copy", "f"]]
+    for via in ("sim", "bptk"):
+        m = build_random_model()
+        b = None
+        try:
+            if via == "sim":
+                sim = SdSimulation(model=m, name="rnd")
+
+                def run(eqs):
+                    df = sim.start(output=["frame"], equations=list(eqs))
+                    return {c: {float(t): float(v) for t, v in df[c].items()} for c in df.columns}
+            else:
+                b = bptk()
+                b.register_model(m, scenario_manager="smR", scenario={"base": {}, "k": {"constants": {}}})
+
+                def run(eqs):
+                    df = b.run_scenarios(scenarios=["base"], scenario_managers=["smR"], equations=list(eqs), return_format="df")
+                    return {(c.split("_")[-1] if c.startswith("smR_") else c): {float(t): float(v) for t, v in df[c].items()} for c in df.columns}
+            union = {}
+            for i in range(5):
+                eqs = rng.choice(lists)
+                fr = run(eqs)
+                counters["stochastic_reruns"] = counters.get("stochastic_reruns", 0) + 1
+                for e, series in fr.items():
+                    if e in union and union[e] != series:
+                        return dict(kind="rerun-differs", via=via, equation=e, run=i, equations=eqs, first=union[e], now=series)
+                    union.setdefault(e, series)
+                w = judge_frame(union, [])
+                if w is not None:
+                    w.update(via=via, run=i, equations=eqs, note="identity over the union of the frames reported so far")
+                    return w
+        finally:
+            if b is not None:
+                b.destroy()
+    return None
+
+
+# ---------------------------------------------------------------- part C
+def one_edit_run(edit, ev, schedule):
+    """Thread 0 evaluates, thread 1 edits; afterwards (both done) the model must equal a fresh build with the final definitions."""
+    import threading
+    from BPTK_Py.modeling.model import Model
+    from vlib.linesched import LineScheduler, all_code_objects
+    defs = defs0()
+    m = build(defs)
+    m.evaluate_equation("f", 1.0)        # part of the memo is filled before the race
+    errors = []
+
+    def evaluator():
+        try:
+            if ev == "y@3":
+                m.evaluate_equation("y", 3.0)
+            elif ev == "f@2+v@1":
+                m.memoize("f", 2.0)
+                m.equation("v", 1.0)
+                m.evaluate_equation("s", 4.0)
+            else:
+                m.converters["y"].plot(return_df=True)
+        except Exception as e:       # an evaluation that fails because definitions change under it is not what is judged
+            errors.append(repr(e)[:120])
+
+    def editor():
+        for part in edit.split("+"):
+            if part == "reset":
+                m.reset_cache()
+            elif part == "c7":
+                defs["c"] = 7.0
+                apply_defs(m, defs, only="c")
+            elif part in ("v1", "v2"):
+                defs["v"] = int(part[1])
+                apply_defs(m, defs, only="v")
+            elif part == "f1":
+                defs["f"] = 1
+                apply_defs(m, defs, only="f")
+            elif part == "s1":
+                defs["s"] = 1
+                apply_defs(m, defs, only="s")
+            elif part == "i100":
+                defs["init"] = ("num", 100.0)
+                apply_defs(m, defs, only="init")
+    codes = all_code_objects(Model.memoize)
+    sched = LineScheduler(codes, expected=2, schedule=schedule)
+    with sched:
+        ts = [threading.Thread(target=evaluator), threading.Thread(target=editor)]
+        for t in ts:
+            t.start()
+        for t in ts:
+            t.join(30)
+    got = snapshot(m, route=1)
+    exp = snapshot(build(defs))
+    return got, exp, sched, errors
+
+
+def run_edit_sched_case(case, counters):
+    from vlib.linesched import alternatives
+    nts = []
+
+    def attempt(schedule):
+        got, exp, sched, errors = one_edit_run(case["edit"], case["ev"], schedule)
+        counters["edit_schedules"] = counters.get("edit_schedules", 0) + 1
+        counters["grid_comparisons"] = counters.get("grid_comparisons", 0) + 25
+        if sched.stuck:
+            return "stuck", dict(kind="stuck", why=sched.stuck, schedule=schedule), sched
+        if sched.preemptions_applied:
+            counters["edit_schedules_with_preemption"] = counters.get("edit_schedules_with_preemption", 0) + 1
+            nts.append("edit-sched:%s:%s:%r" % (case["edit"], case["ev"], schedule))
+        if got != exp:
+            bad = next(n for n in got if got[n] != exp[n])
+            return "violated", dict(kind="stale-after-concurrent-edit", edit=case["edit"], evaluation=case["ev"], element=bad, got=got[bad], expected=exp[bad],
+                                    schedule=schedule, evaluator_errors=errors), sched
+        return "held", None, sched
+    st, w, base = attempt([])
+    if st != "held":
+        return st, w, nts
+    alts = alternatives(base.trace)
+    mine = [a for i, a in enumerate(alts) if i % case["K"] == case["stride"]]
+    for (d, t) in mine:
+        st, w, s1 = attempt([(d, t)])
+        if st != "held":
+            return st, w, nts
+        if case["depth"] >= 2:
+            for (d2, t2) in alternatives(s1.trace):
+                if d2 <= d:
+                    continue
+                st, w, _ = attempt([(d, t), (d2, t2)])
+                if st != "held":
+                    return st, w, nts
+    return "held", None, nts
+
+
 def run_case(case):
     counters = {}
     k = case["kind"]
+    if k == "stochastic-rerun":
+        w = run_stochastic_rerun(case["seed"], counters)
+        if w is not None:
+            return dict(verdict="violated", counters=counters, mech=w["kind"] + ":stochastic-rerun", witness=w)
+        return dict(verdict="held", counters=counters, sample=dict(case=case))
+    if k == "edit-sched":
+        st, w, nts = run_edit_sched_case(case, counters)
+        if st == "violated":
+            return dict(verdict="violated", nt=nts, counters=counters, mech="stale:concurrent-edit", witness=w)
+        if st == "stuck":
+            return dict(verdict="inconclusive", counters=counters, witness=w)
+        return dict(verdict="held", nt=nts, counters=counters, sample=dict(case=case))
     if k in ("enum", "random"):
         seqs = [case["seq"]] if k == "random" else \
             [[case["first"]] + list(t) for L in range(case["L"]) for t in itertools.product(range(len(OPS)), repeat=L)]
